@@ -44,6 +44,7 @@ type vLeaf struct {
 	// the leaf is present exactly when leaf tiedTo (listed before it) is
 	onlyOwner string
 	tiedTo    string
+	uintChoice []uint64 // uint leaf whose value is one of these (forked)
 }
 
 func (l *vLeaf) path() *sdcpb.Path {
@@ -249,6 +250,9 @@ func (l *vLeaf) newVal(tag string) vVal {
 	}
 	if l.empty {
 		return vVal{}
+	}
+	if l.isUint && len(l.uintChoice) > 0 {
+		return vVal{u: l.uintChoice[verifrt.Choice(tag, len(l.uintChoice))]}
 	}
 	if l.isUint {
 		// four-digit values: one digit count, so decimal renderings do not fork
